@@ -108,6 +108,7 @@ STYLES = [
     ('cell', 'chain', 'states_first'),   # chains of two forks
     ('cell', 'multi', 'reverse'),        # interface nodes drive every reader from an own output pin
     ('fork', 'fanout', 'reverse'),
+    ('cell', 'chain_first', 'gates_first'),   # a 1:1 fork on the FIRST branch of a fan-out fork
 ]
 
 
@@ -200,6 +201,12 @@ def build(nl, style=STYLES[0], io_order='in_out'):
             continue
         f = Node(c, f'{sig}_f{next(fork_names)}')
         lines.append(Line(c, drv(), f))
+        if forks == 'chain_first':
+            f2 = Node(c, f'{sig}_f{next(fork_names)}')
+            lines.append(Line(c, f, f2))
+            lines.append(Line(c, f2, reader_ep(rs[0])))
+            for r in rs[1:]: lines.append(Line(c, f, reader_ep(r)))
+            continue
         if forks == 'chain':
             f2 = Node(c, f'{sig}_f{next(fork_names)}')
             if len(rs) > 1:   # first reader taps the first fork, the others the second
